@@ -191,7 +191,7 @@ pub fn spaces(tier: Tier) -> Vec<Space<'static>> {
 
 pub fn meta(tier: Tier) -> (String, serde_json::Value, Vec<String>) {
     (
-        "every buffer-writing function (editors, builders, array set functions, Value/LazyValue::write_to_vec, convert_to_comparable, get_by_path*, Selector::select in 4 modes over a 12-path menu) x every document of the universe x 6 prior buffer contents (empty, 1 byte, 5 bytes, a complete JSONB document, 7 unaligned bytes, 1023 bytes) and a non-empty offsets vector: out(prefix) must be prefix ++ out(empty), offsets shifted by the prefix length, errors leave buffer and offsets untouched. Batches: breadth-first search over sequences of calls into ONE buffer, menu of 40 (function,input) pairs, state = whole buffer + offsets, deduplicated on full content. Non-trivial = every call (each is a distinct function/argument/prefix combination).".into(),
+        "every buffer-writing function (editors, builders, array set functions, Value/LazyValue::write_to_vec, convert_to_comparable, get_by_path*, Selector::select in 4 modes over a 16-path menu (4 of them fail only after earlier items were selected)) x every document of the universe x 6 prior buffer contents (empty, 1 byte, 5 bytes, a complete JSONB document, 7 unaligned bytes, 1023 bytes) and a non-empty offsets vector: out(prefix) must be prefix ++ out(empty), offsets shifted by the prefix length, errors leave buffer and offsets untouched. Batches: breadth-first search over sequences of calls into ONE buffer, menu of 40 (function,input) pairs, state = whole buffer + offsets, deduplicated on full content. Non-trivial = every call (each is a distinct function/argument/prefix combination).".into(),
         json!({"universe": if tier.thorough() {"D2 and D1q"} else {"D2"}, "prefixes": 6, "batch_depth": if tier.thorough() {4} else {3}, "batch_menu": 40}),
         vec!["a panic on an empty buffer is judged by the property that owns the function, not here".into()],
     )
